@@ -1,4 +1,204 @@
+/-
+  C15 — A failed or interrupted write never corrupts or loses a stored object.
+  Model: `Basyx/Model/FileStore.lean`, part B.  `write k i p f fs` runs the I/O step sequence `program k i p` that
+  add()/commit() perform (the tie extracts the sequence from the running code and compares it with `program` on
+  every run), with fault `f` = exception at step k (a `write` possibly half done) or death of the process before
+  step k (of the file being written an arbitrary prefix survives).  All theorems quantify over every fault, every
+  payload (accepted or rejected by the encoder) and every content of the directory.
+-/
 import Basyx.Model.FileStore
+import Basyx.Lemmas.FileStore
 namespace Basyx.FileStore
-theorem c15_placeholder : True := trivial
+
+/-- the document stored under identifier `i` -/
+def docOf (fs : FS) (i : Id) : Option Cnt := AList.get (.doc i) fs
+/-- the complete new version -/
+def newCnt (p : Payload) : Cnt := ⟨p.doc, p.total, p.total⟩
+
+/-- every listed document is complete (so that loading it cannot fail) -/
+def AllComplete (fs : FS) : Prop := ∀ j c, AList.get (FName.doc j) fs = some c → c.complete = true
+
+/-- the fault is an exception at an I/O or serialisation step (the fault points the property names), or none -/
+def Fault.ioRaise (prog : List Step) : Fault → Bool
+  | .none => true
+  | .raise k _ => match prog[k]? with
+    | Option.some s => s.isIO
+    | Option.none => true
+  | .crash _ _ => false
+
+/-- **Atomicity.**  Whatever fault hits add() or commit(): afterwards the identifier holds what it held before
+    (nothing, or the complete earlier version) or the complete new version — never anything else. -/
+theorem c15_atomic (kd : Kind) (i : Id) (p : Payload) (f : Fault) (fs : FS) :
+    docOf (write kd i p f fs).fs i = docOf fs i ∨ docOf (write kd i p f fs).fs i = some (newCnt p) := by
+  have hne : FName.doc i ≠ FName.tmp i := doc_ne_tmp i i
+  cases kd <;> cases f with
+  | none =>
+    simp [write, program, exec, stepIO, docOf]
+    try (by_cases hex : AList.has (FName.doc i) fs <;> simp [hex])
+    all_goals (by_cases hok : p.ok <;> simp [hok, cleanup, get_bump_same, newCnt])
+  | raise k part =>
+    match k with
+    | 0 | 1 | 2 | 3 | 4 | 5 | 6 | 7 | _ + 8 =>
+      (simp [write, program, exec, stepIO, docOf, partialEffect]
+       try (by_cases hex : AList.has (FName.doc i) fs <;> simp [hex])
+       all_goals (by_cases hok : p.ok <;>
+         simp [hok, cleanup, get_bump_same, get_bump_other, newCnt, AList.get_set_other, AList.get_erase_other, hne]))
+  | crash k pre =>
+    match k with
+    | 0 | 1 | 2 | 3 | 4 | 5 | 6 | 7 | _ + 8 =>
+      (simp [write, program, exec, stepIO, docOf, crashTrunc]
+       try (by_cases hex : AList.has (FName.doc i) fs <;> simp [hex])
+       all_goals (by_cases hok : p.ok <;>
+         simp [hok, cleanup, get_bump_same, get_bump_other, newCnt, AList.get_set_other, AList.get_erase_other, hne]))
+
+/-- **Other objects untouched.**  No fault changes any file other than the identifier's document and its
+    temporary file — in particular every other stored document is byte-for-byte what it was. -/
+theorem c15_others_untouched (kd : Kind) (i : Id) (p : Payload) (f : Fault) (fs : FS) (n : FName)
+    (h1 : n ≠ .doc i) (h2 : n ≠ .tmp i) :
+    AList.get n (write kd i p f fs).fs = AList.get n fs := by
+  cases kd <;> cases f with
+  | none =>
+    simp [write, program, exec, stepIO]
+    try (by_cases hex : AList.has (FName.doc i) fs <;> simp [hex])
+    all_goals (by_cases hok : p.ok <;>
+      simp [hok, cleanup, get_bump_other, get_bump_same, AList.get_set_other, AList.get_erase_other, h1, h2])
+  | raise k part =>
+    match k with
+    | 0 | 1 | 2 | 3 | 4 | 5 | 6 | 7 | _ + 8 =>
+      (simp [write, program, exec, stepIO, partialEffect]
+       try (by_cases hex : AList.has (FName.doc i) fs <;> simp [hex])
+       all_goals (by_cases hok : p.ok <;>
+         simp [hok, cleanup, get_bump_other, get_bump_same, AList.get_set_other, AList.get_erase_other, h1, h2]))
+  | crash k pre =>
+    match k with
+    | 0 | 1 | 2 | 3 | 4 | 5 | 6 | 7 | _ + 8 =>
+      (simp [write, program, exec, stepIO, crashTrunc]
+       try (by_cases hex : AList.has (FName.doc i) fs <;> simp [hex])
+       all_goals (by_cases hok : p.ok <;>
+         simp [hok, cleanup, get_bump_other, get_bump_same, AList.get_set_other, AList.get_erase_other, h1, h2]))
+
+theorem c15_other_documents_untouched (kd : Kind) (i j : Id) (p : Payload) (f : Fault) (fs : FS) (h : j ≠ i) :
+    docOf (write kd i p f fs).fs j = docOf fs j :=
+  c15_others_untouched kd i p f fs (.doc j) (fun e => h (by cases e; rfl)) (doc_ne_tmp j i)
+
+/-- **Every listed document stays complete.**  If all documents were complete before, they all are after any fault:
+    an incomplete file can only exist under the temporary name, which the listing ignores. -/
+theorem c15_documents_complete (kd : Kind) (i : Id) (p : Payload) (f : Fault) (fs : FS) (h : AllComplete fs) :
+    AllComplete (write kd i p f fs).fs := by
+  intro j c hc
+  by_cases hj : j = i
+  · subst hj
+    rcases c15_atomic kd j p f fs with e | e
+    · exact h j c (by unfold docOf at e; rw [← e]; exact hc)
+    · unfold docOf at e; rw [hc] at e; injection e with e; subst e; simp [newCnt, Cnt.complete]
+  · have := c15_other_documents_untouched kd i j p f fs hj
+    unfold docOf at this; rw [this] at hc; exact h j c hc
+
+/-- **Listing and iteration keep working** (`__len__`, `__iter__`, `__contains__` never meet an incomplete document). -/
+theorem c15_listing_total (kd : Kind) (i : Id) (p : Payload) (f : Fault) (fs : FS) (h : AllComplete fs) :
+    iterOk (write kd i p f fs).fs = true := by
+  have hc := c15_documents_complete kd i p f fs h
+  unfold iterOk
+  rw [List.all_eq_true]
+  intro j hj
+  have := mem_listing hj
+  cases hg : AList.get (FName.doc j) (write kd i p f fs).fs with
+  | none => simp [hg] at this
+  | some c => simpa using hc j c hg
+
+/-- **A failed add is not marked as stored**: when add() leaves with an exception raised at any I/O or serialisation
+    step (or by the duplicate check / the encoder itself), the object is not in the cache and its source is empty. -/
+theorem c15_failed_add_not_marked (i : Id) (p : Payload) (f : Fault) (fs : FS)
+    (hf : f.ioRaise (program .add i p) = true) (hr : (write .add i p f fs).raised ≠ none) :
+    (write .add i p f fs).cached = false ∧ (write .add i p f fs).bound = false := by
+  cases f with
+  | none =>
+    revert hr
+    simp [write, program, exec, stepIO]
+    by_cases hex : AList.has (FName.doc i) fs <;> by_cases hok : p.ok <;> simp [hex, hok, cleanup, get_bump_same]
+  | raise k part =>
+    revert hr hf
+    match k with
+    | 0 | 1 | 2 | 3 | 4 | 5 | 6 | 7 | _ + 8 =>
+      (simp [write, program, exec, stepIO, partialEffect, Fault.ioRaise, Step.isIO]
+       try (by_cases hex : AList.has (FName.doc i) fs <;> by_cases hok : p.ok <;> simp [hex, hok, cleanup, get_bump_same]))
+  | crash k pre => simp [Fault.ioRaise] at hf
+
+/-- **A failure is reported**: an exception injected at a step that add()/commit() reaches is never swallowed. -/
+theorem c15_fault_reported (kd : Kind) (i : Id) (p : Payload) (k part : Nat) (fs : FS)
+    (hk : k < (program kd i p).length) :
+    (write kd i p (.raise k part) fs).raised ≠ none := by
+  cases kd <;>
+  (match k with
+   | 0 | 1 | 2 | 3 | 4 | 5 | 6 | 7 | _ + 8 =>
+     (simp [write, program, exec, stepIO, partialEffect] at hk ⊢
+      try (by_cases hex : AList.has (FName.doc i) fs <;> by_cases hok : p.ok <;> simp [hex, hok, cleanup, get_bump_same])
+      try (by_cases hok : p.ok <;> simp [hok, cleanup, get_bump_same])
+      all_goals (try omega)))
+
+/-- **Without a fault the new version is installed** (and, for add, the object is cached and bound). -/
+theorem c15_nofault_installs (kd : Kind) (i : Id) (p : Payload) (fs : FS) (hok : p.ok = true)
+    (hnew : kd = .add → AList.has (FName.doc i) fs = false) :
+    docOf (write kd i p .none fs).fs i = some (newCnt p) ∧ (write kd i p .none fs).raised = none ∧
+    (kd = .add → (write kd i p .none fs).cached = true ∧ (write kd i p .none fs).bound = true) := by
+  cases kd
+  · have := hnew rfl
+    simp [write, program, exec, stepIO, docOf, this, hok, get_bump_same, newCnt]
+  · simp [write, program, exec, stepIO, docOf, hok, get_bump_same, newCnt]
+
+/-- **A payload the encoder rejects leaves the directory exactly as it was** (serialisation happens before any I/O). -/
+theorem c15_rejected_payload_no_effect (kd : Kind) (i : Id) (p : Payload) (fs : FS) (hbad : p.ok = false) :
+    (write kd i p .none fs).fs = fs ∧ (write kd i p .none fs).raised ≠ none := by
+  cases kd
+  · by_cases hex : AList.has (FName.doc i) fs <;> simp [write, program, exec, stepIO, hex, hbad, cleanup]
+  · simp [write, program, exec, stepIO, hbad, cleanup]
+
+/-! ### The pinned protocol (open the target for writing first, stream the encoder's chunks) violates all of this -/
+
+/-- add() of an object whose encoding fails after 10 bytes (mixed-sign duration): the identifier is left with an
+    incomplete document, it is listed, and iteration fails.  (Replay of the finding.) -/
+theorem c15_pinned_add_leaves_truncated_document :
+    let x := writePinned .add ['a'] ⟨1, 100, false, [10]⟩ .none []
+    x.raised = some .valueError ∧ docOf x.fs ['a'] = some ⟨1, 10, 100⟩ ∧ listing x.fs = [['a']] ∧ iterOk x.fs = false := by
+  decide
+
+/-- commit() of such an object destroys the stored earlier version. -/
+theorem c15_pinned_commit_loses_old_version :
+    let fs : FS := [(.doc ['a'], ⟨0, 50, 50⟩)]
+    let x := writePinned .commit ['a'] ⟨1, 100, false, [10]⟩ .none fs
+    docOf x.fs ['a'] ≠ docOf fs ['a'] ∧ docOf x.fs ['a'] ≠ some (newCnt ⟨1, 100, false, [10]⟩) ∧ iterOk x.fs = false := by
+  decide
+
+/-- …and so does the death of the process right after the `open`. -/
+theorem c15_pinned_crash_after_open_loses_old_version :
+    let fs : FS := [(.doc ['a'], ⟨0, 50, 50⟩)]
+    let x := writePinned .commit ['a'] ⟨1, 100, true, [60, 40]⟩ (.crash 1 0) fs
+    docOf x.fs ['a'] = some ⟨1, 0, 100⟩ ∧ iterOk x.fs = false := by
+  decide
+
+/-! ### Non-vacuity -/
+
+/-- a directory with two complete documents and the stale temporary file of an earlier crash -/
+def demoFs : FS := [(.doc ['b'], ⟨0, 10, 10⟩), (.tmp ['a'], ⟨9, 3, 20⟩), (.doc ['a'], ⟨2, 30, 30⟩)]
+
+example : AllComplete demoFs := by
+  intro j c h
+  simp only [demoFs, AList.get] at h
+  split at h
+  · injection h with h; subst h; rfl
+  · simp only [tmp_ne_doc, if_false] at h
+    split at h
+    · injection h with h; subst h; rfl
+    · cases h
+
+example : (write .commit ['a'] ⟨5, 40, true, []⟩ .none demoFs).fs
+    = [(.doc ['b'], ⟨0, 10, 10⟩), (.doc ['a'], ⟨5, 40, 40⟩)] := by decide
+example : (write .commit ['a'] ⟨5, 40, true, []⟩ (.crash 4 17) demoFs).fs
+    = [(.doc ['b'], ⟨0, 10, 10⟩), (.tmp ['a'], ⟨5, 17, 40⟩), (.doc ['a'], ⟨2, 30, 30⟩)] := by decide
+example : (write .commit ['a'] ⟨5, 40, true, []⟩ (.raise 2 25) demoFs).fs
+    = [(.doc ['b'], ⟨0, 10, 10⟩), (.doc ['a'], ⟨2, 30, 30⟩)] := by decide
+example : (write .add ['c'] ⟨5, 40, true, []⟩ (.raise 5 0) demoFs).raised = some .osError := by decide
+example : Fault.ioRaise (program .add ['c'] ⟨5, 40, true, []⟩) (.raise 5 0) = true := by decide
+example : (program .add ['c'] ⟨5, 40, true, []⟩).length = 8 := by decide
+
 end Basyx.FileStore
